@@ -216,8 +216,14 @@ def check_condition_emit(ctx):
                 if first is not None:
                     apps = [c for c in A.calls_in(first) if isinstance(c.func, ast.Attribute) and c.func.attr == "append" and c.args and A.norm(c.args[0]) == condvars[0]]
                     lst = A.norm(apps[0].func.value) if apps else None
-                ok = ok and len(ops) == 3 and lst is not None and ops[0] == f"{lst}[0]" and ops[1] == f"{lst}[1]"
-                ok = ok and first is not None and A.norm(first.iter) == f"[{p0},{p1}]" and isinstance(first.target, ast.Name) and \
+                # operand k of the branch is the k-th condition operand: `lst[k]`, or a local unpacked from lst at position k
+                unpacked = {}
+                for n_ in ast.walk(f2):
+                    if isinstance(n_, ast.Assign) and isinstance(n_.targets[0], ast.Tuple) and isinstance(n_.value, ast.Name) and n_.value.id == lst:
+                        unpacked.update({e_.id: f"{lst}[{k_}]" for k_, e_ in enumerate(n_.targets[0].elts) if isinstance(e_, ast.Name)})
+                ops_c = [unpacked.get(o_, o_) for o_ in ops]
+                ok = ok and len(ops) == 3 and lst is not None and ops_c[0] == f"{lst}[0]" and ops_c[1] == f"{lst}[1]"
+                ok = ok and first is not None and A.norm(first.iter) in (f"[{p0},{p1}]", f"({p0},{p1})") and isinstance(first.target, ast.Name) and \
                     any(A.call_name(c) == "_get_condition_operand" and len(c.args) == 1 and A.norm(c.args[0]) == first.target.id for c in A.calls_in(first))
             detail = f"{ops}, labels {labels}"
             # the label is defined in the list returned second (after the body)
@@ -229,11 +235,10 @@ def check_condition_emit(ctx):
         rets = A.returns(f2)
         startv = A.norm(rets[0].value.elts[0]) if rets and isinstance(rets[0].value, ast.Tuple) else None
         app = []
-        for c in sorted(A.calls_in(f2), key=lambda c: (c.lineno, c.col_offset)):
-            if isinstance(c.func, ast.Attribute) and c.func.attr in ("append", "extend") and A.norm(c.func.value) == startv:
-                a0 = c.args[0] if c.args else None
-                kind = "branch" if isinstance(a0, ast.Name) and isinstance(A.single_defs(f2).get(a0.id), ast.Call) and A.call_name(A.single_defs(f2)[a0.id]) == "ICmd" else "loads"
-                app.append(kind)
+        d2 = A.single_defs(f2)
+        for kind_, e_ in (E.list_terms(f2, startv) or []) if startv else []:
+            e_ = A.expand(e_, {k_: v_ for k_, v_ in d2.items() if isinstance(v_, ast.Call) and A.call_name(v_) == "ICmd"})
+            app.append("branch" if kind_ == "item" and isinstance(e_, ast.Call) and A.call_name(e_) == "ICmd" else "loads")
         ok = bool(app) and app[-1] == "branch" and "loads" in app[:-1] and app.count("branch") == 1
         ctx.check("C05.G", f"{name}:loads-before-branch", ok, f"{name}: the commands loading the condition operands are not placed before the branch ({app})", b.loc(f2), trivial=True)
     # _get_condition_operand: Future -> load into the returned register from its own address entry
@@ -423,11 +428,11 @@ def check_at_most(ctx):
     condv = co[0].targets[0].elts[1].id if len(co) == 1 and isinstance(co[0].targets[0].elts[1], ast.Name) else None
     cvar = [k for k, v in d.items() if A.norm(v) == f"{A.param_names(fn)[1]}.exit_condition"]
     ok_shape = len(ops) == 3 and condv is not None and A.norm(ops[0]) == condv and A.norm(ops[2]) == f"Label({elab})" and len(cvar) == 1 and \
-        len(co[0].value.args) == 1 and A.norm(co[0].value.args[0]) == f"{cvar[0]}.future"
+        len(co[0].value.args) == 1 and A.norm(A.expand(co[0].value.args[0], {k_: v_ for k_, v_ in d.items() if k_ not in cvar})) == f"{cvar[0]}.future"
     cname = cvar[0] if cvar else "condition"
     bad = None
     if ok_shape:
-        expr = ops[1]
+        expr = A.expand(ops[1], {k_: v_ for k_, v_ in d.items() if k_ != cname})
         for f in range(-3, 5):
             for v in range(-3, 5):
                 r = G._Replace(f"{cname}.value", v)
